@@ -59,6 +59,10 @@ def pFunctional : P Nat := fun ts => do
     let (size, ts) ← pNat ts
     let (_, ts) ← pFloat ts
     pure (size, ts)
+  | "P" =>
+    let (size, ts) ← pNat ts
+    let (_, ts) ← pFloat ts
+    pure (size, ts)
   | "S" =>
     let (_, ts) ← pStr ts
     let (size, ts) ← pNat ts
